@@ -6,7 +6,9 @@ S=/verif/seeded/$1; shift
 cd /repo || exit 2
 if ! git diff --quiet; then echo "/repo has uncommitted changes"; exit 2; fi
 git apply "$S/patch.diff" || { echo "patch does not apply"; exit 2; }
-trap 'git -C /repo checkout -- . ' EXIT
+# evidence files describe the unchanged tree: keep them out of the way of these runs
+rm -rf /verif/work/evidence_backup && cp -r /verif/evidence /verif/work/evidence_backup
+trap 'git -C /repo checkout -- . ; rm -rf /verif/evidence && mv /verif/work/evidence_backup /verif/evidence' EXIT
 cd /verif
 for c in "$@"; do
   out=$(./check "$c" --tier quick 2>&1); rc=$?
